@@ -82,6 +82,16 @@ func ite[T any](c bool, a, b T) T {
 //@   trusted here; checkCAConstraints is verified separately (validity window, groups) under C01/C04
 //@   ensures (result == nil) == specConstraintsOK(signer, sub)
 //@   assigns nothing
+// ... and its body: the verifier-side wrapper hands exactly the certificate's own
+// window, groups, networks and unsafe networks, and exactly the signer, to the
+// checked checkCAConstraints, and returns its verdict.
+//@ func CheckCAConstraints impl
+//@   props C01
+//@   ghost checked int = 0
+//@   ghost j int
+//@   requires signer != nil && sub != nil
+//@   callrequires checkCAConstraints same(arg0, signer) && arg1 == sub.NotBefore() && arg2 == sub.NotAfter() && same(arg3, sub.Groups()) && same(arg4, sub.Networks()) && same(arg5, sub.UnsafeNetworks())
+//@   ensures[verdict] (result == nil) == (checked == 1)
 
 //@ func specFingerprint
 //@   opaque
